@@ -42,6 +42,9 @@ def check_lane_semantics(c, m, stim, s1, mask):
 THEOREMS += ['C02_logicsim_chain_agrees_trace', 'C02_logicsim_drivers_source_is_model_partial']
 THEOREMS += ['C02_logicsim_iteration_source_is_model', 'C02_logicsim_loop_source_is_model', 'C02_logicsim_loop_source_nonvacuous',
              'C02_logicsim_separation_build', 'C02_logicsim_drivers_source_is_model', 'C02_logicsim_drivers_source_nonvacuous']
+THEOREMS += ['C02_logicsim_separation_build_x', 'C02_logicsim_iteration8x_source_is_model', 'C02_logicsim_loop8x_source_is_model',
+             'C02_logicsim_loop4_source_is_model', 'C02_logicsim_loop4_source_is_model_build', 'C02_logicsim_loopx_source_nonvacuous',
+             'C02_logicsim_source_round_solution_partial', 'C02_logicsim_source_round_nonvacuous']
 
 
 def run(ck):
@@ -115,7 +118,7 @@ def run(ck):
         ck.count(0 if verd is None else sum(1 for v in verd if v == 1), 'circuits whose memory map passes the separation check ops_sep_b')
         ck.obligation(f'separation hypothesis of C02_logicsim_loop_source_is_model (c_locs[tmp_idx], c_locs[tmp2_idx] and the location of every op output '
                       f'differ from each other and from the op\'s operand locations) holds on {len(sep_cases)} generated circuits -- verdict of ops_sep_b on the '
-                      'Coq build() = verdict on the real sim.ops / sim.c_locs; circuits with a gate without output line (it writes the scratch slot) are outside',
+                      'Coq build() = verdict on the real sim.ops / sim.c_locs; on circuits with a gate without output line (it writes the scratch slot) the extended check ops_sepx_b of C02_logicsim_loop8x_source_is_model / C02_logicsim_loop4_source_is_model / C16_callback_loop8_source_is_model is evaluated instead',
                       bad == [], 'certificate', '' if bad == [] else (f'failing cases {bad[:10]}' if bad is not None else outs_[-600:]))
         if bad and not fails:
             for j in bad[:2]:
